@@ -71,6 +71,11 @@ type Stream struct {
 	// Contains frames waiting to be sent to the peer. Is emptied by AsyncFlush or Flush.
 	pendingFrames []*Frame
 
+	// The transport carries one asynchronous write at a time. While an asynchronous flush is in flight, further
+	// AsyncFlush calls wait for it: it also sends the frames queued in the meantime.
+	flushing     bool
+	flushWaiters []func(err error)
+
 	// Optional callback invoked when a control frame is received.
 	controlCallback ControlCallback
 
@@ -160,6 +165,8 @@ func (s *Stream) reset() {
 	s.handshakeBuffer = s.handshakeBuffer[:cap(s.handshakeBuffer)]
 	s.state = StateHandshake
 	s.stream = nil
+	s.flushing = false
+	s.flushWaiters = nil
 	if s.conn != nil {
 		// the connection of an earlier handshake on this stream: it would otherwise stay open with nobody left to close it
 		_ = s.conn.Close()
@@ -728,6 +735,30 @@ func (s *Stream) Flush() (err error) {
 //
 // This call does not block.
 func (s *Stream) AsyncFlush(callback func(err error)) {
+	if s.flushing {
+		s.flushWaiters = append(s.flushWaiters, callback)
+		return
+	}
+
+	if len(s.pendingFrames) == 0 {
+		callback(nil)
+		return
+	}
+
+	s.flushing = true
+	s.asyncFlushPending(func(err error) {
+		s.flushing = false
+		waiters := s.flushWaiters
+		s.flushWaiters = nil
+
+		callback(err)
+		for _, waiter := range waiters {
+			waiter(err)
+		}
+	})
+}
+
+func (s *Stream) asyncFlushPending(callback func(err error)) {
 	if len(s.pendingFrames) == 0 {
 		callback(nil)
 	} else {
@@ -740,7 +771,7 @@ func (s *Stream) AsyncFlush(callback func(err error)) {
 			if err != nil {
 				callback(err)
 			} else {
-				s.AsyncFlush(callback)
+				s.asyncFlushPending(callback)
 			}
 		})
 	}
